@@ -84,7 +84,7 @@ func verifC19RoundTrip() {
 
 	t := NewTransport()
 	t.Resolver = &Resolver{}
-	withTLSConfig := vBool()
+	withTLSConfig := nrec < 3 && vBool() // (the largest record sets run with the default configuration only)
 	if withTLSConfig {
 		t.TLSConfig = &tls.Config{NextProtos: []string{"h2"}, MinVersion: tls.VersionTLS13}
 	}
@@ -108,7 +108,7 @@ func verifC19RoundTrip() {
 	req := &http.Request{Method: "GET", URL: parsed, Header: http.Header{}}
 	req = req.WithContext(context.Background())
 	hostHdr := "" // optional Host header override naming another origin
-	if vBool() {
+	if nrec < 3 && vBool() {
 		hostHdr = "front.example"
 		req.Host = hostHdr
 	}
